@@ -1,21 +1,24 @@
 /-
-  C16 — success of step 5 INSIDE the modelled pipeline, for geometries without point of interest.
+  C16 — success of step 5 INSIDE the modelled pipeline: the hypothesis "the run succeeds" of the chain theorems, replaced by a
+  decidable condition on the map after step 3 (checked BEFORE step 5).
 
-  `C16_stepFive_total_partial` (Props/C16Step5Total.lean) needs edges without intermediate point.  Here:
+  Geometries without point of interest (`C16_stepFive_total_partial`: edges may share darts):
   * `edgeData_nopoi`                          with `poi = []`, step 1 makes no `PoI` geometry vertex (`segmentsFrom_nopoi`), a walk of
                                               step 4 collects nothing (`path_nopoi`), so every edge has `inter = []`
   * `run_asize`                               no program changes the number of attribute storages (the `Boundary` storage is still there
                                               after step 3)
-  * `pipelineReady`                           the decidable condition: steps 2–3 succeed, step 4 yields its edges, every edge is `Ready`
-                                              in the map after step 3
-  * `C16_pipeline_total_nopoi_partial`        `pipelineReady` ⇒ the pipeline succeeds (`pipelineMap … = some m'`): the hypothesis
-                                              "the run succeeds" of the chain theorems is replaced by a condition checked BEFORE step 5
+  * `pipelineReady`                           steps 2–3 succeed, step 4 yields its edges, every edge is `Ready` in the map after step 3
+  * `C16_pipeline_total_nopoi_partial`        `pipelineReady` ⇒ the pipeline succeeds (`pipelineMap … = some m'`)
   * `C16_pipeline_total_nopoi_on_grid_partial` the same on `gridMap10` (C12's builder): hypotheses `GenPos`, `FitsAll`,
                                               `KeysAreHitEdges`, `pipelineReady` only
-  PARTIAL: `poi = []`; success of steps 2–3 and `Ready` of the edges are evaluated (part of `pipelineReady`), not derived from the
+  Any points of interest (`C16_stepFive_total_indep_partial`, Props/C16InsertTotal.lean: pairwise independent edges):
+  * `Valued`, `pipelineReadyAll`              … every edge `Ready` with a coordinate at both end points, the edges pairwise `Indep`
+  * `C16_pipeline_total_partial`, `C16_pipeline_total_on_grid_partial`
+  PARTIAL: success of steps 2–3, `Ready` / `Valued` / `Indep` of the edges are evaluated (part of the condition), not derived from the
   geometry.
 -/
 import Honeycomb.Props.C16Step5Total
+import Honeycomb.Props.C16InsertTotal
 import Honeycomb.Props.C16ChainGrid
 
 set_option linter.unusedSimpArgs false
@@ -164,5 +167,88 @@ theorem C16_pipeline_total_nopoi_on_grid_partial {g : GGrid} {ny : Nat} {eps : R
     `x = 2` to the crossing of `x = 3`, across one cell — ready, so the pipeline succeeds -/
 example : ∃ m', pipelineMap (gridMap10 exG5 3) exG5 (1/8) [] exVD exSD false [26, 30] [.intersec 0] = some m' :=
   C16_pipeline_total_nopoi_on_grid_partial (by decide) (by decide) exD_gen exD_fit exD_keys (by decide +kernel)
+
+/-! ## any points of interest: the conditions of `C16_stepFive_total_indep_partial`, evaluated after step 3 -/
+
+/-- the dart is in use and its vertex has a coordinate -/
+def Valued (m : Map Val) (x : Nat) : Prop := C01.InUse m x ∧ (m.att 0 (C03.cellId m .vertex x)).isSome = true
+
+instance (m : Map Val) (x : Nat) : Decidable (Valued m x) := by unfold Valued C01.InUse; infer_instance
+
+theorem Valued.carries {m : Map Val} {x : Nat} (h : Valued m x) : ∃ P, Carries m x P := by
+  obtain ⟨iu, hv⟩ := h
+  obtain ⟨P, hP⟩ := Option.isSome_iff_exists.1 hv
+  exact ⟨P, iu, hP⟩
+
+/-- the decidable condition: steps 2–3 succeed, step 4 yields its edges, and in the map after step 3 every edge is `Ready`
+    with a coordinate at both end points, the edges pairwise independent -/
+def pipelineReadyAll (m0 : Map Val) (g : GGrid) (eps : Rat) (poi : List Nat) (verts : List Pt) (segs : List (Nat × Nat))
+    (keys2 : List Nat) (keys4 : List GV) : Bool :=
+  match stepsTwoThree m0 (slotsAll g eps verts segs) keys2 with
+  | (res, .ok _, m3) =>
+      match edgeData (m3.β 1) (m3.β 2) verts (segmentsOf g eps poi verts segs) res keys4 with
+      | .ok edges =>
+          decide ((∀ e, e ∈ edges → Ready m3 e ∧ Valued m3 (m3.β 1 e.start) ∧ Valued m3 e.stop) ∧
+            edges.Pairwise (Indep m3))
+      | _ => false
+  | _ => false
+
+/-- **C16 — success of step 5 inside the modelled pipeline, any points of interest** (partial: pairwise independent
+    edges).  `pipelineReadyAll` — a decidable condition on the map after step 3, checked BEFORE step 5 — implies that the
+    whole pipeline succeeds. -/
+theorem C16_pipeline_total_partial {m0 : Map Val} {g : GGrid} {eps : Rat} {poi : List Nat} {verts : List Pt}
+    {segs : List (Nat × Nat)} {ha : Bool} {keys2 : List Nat} {keys4 : List GV} (hwf : WF 3 m0)
+    (hnotag : ∀ d, m0.att sBd d = none) (hA : sBd < m0.a.size)
+    (hkeys : KeysOK m0 (slotsAll g eps verts segs) keys2)
+    (hready : pipelineReadyAll m0 g eps poi verts segs keys2 keys4 = true) :
+    ∃ m', pipelineMap m0 g eps poi verts segs ha keys2 keys4 = some m' := by
+  unfold pipelineReadyAll at hready
+  rcases h23 : stepsTwoThree m0 (slotsAll g eps verts segs) keys2 with ⟨res, o, m3⟩
+  rw [h23] at hready
+  cases o with
+  | ok u =>
+      simp only at hready
+      cases h4 : edgeData (m3.β 1) (m3.β 2) verts (segmentsOf g eps poi verts segs) res keys4 with
+      | ok edges =>
+          rw [h4] at hready
+          simp only [decide_eq_true_eq] at hready
+          obtain ⟨hall, hind⟩ := hready
+          obtain ⟨w3, t3, _, _⟩ := C16_steps23_carries hwf hkeys.1 hkeys.2.1 hkeys.2.2 h23
+          have hA3 : m3.a.size = m0.a.size := by
+            have h := h23
+            unfold stepsTwoThree at h
+            simp only [Prod.mk.injEq] at h
+            obtain ⟨_, _, hm3⟩ := h
+            rw [← hm3, run_asize]
+            simp only [Map.addFreeDarts, Array.size_map]
+          have hva : ha = true → sVA < m3.a.size := by
+            intro _; rw [hA3]; unfold sVA; unfold sBd at hA; omega
+          obtain ⟨m', h5⟩ := C16_stepFive_total_indep_partial (ha := ha) w3 (t3 hnotag) (by rw [hA3]; exact hA) hva
+            (fun e he => ⟨(hall e he).1, (hall e he).2.1.carries, (hall e he).2.2.carries⟩) hind
+          refine ⟨m', ?_⟩
+          unfold pipelineMap
+          rw [h23]; simp only; rw [h4]; simp only; rw [h5]
+      | panic => rw [h4] at hready; simp at hready
+      | diverges => rw [h4] at hready; simp at hready
+  | err e => simp at hready
+  | retry => simp at hready
+  | panic => simp at hready
+
+/-- the same on the grid of the model's builder: no hypothesis about the map is left -/
+theorem C16_pipeline_total_on_grid_partial {g : GGrid} {ny : Nat} {eps : Rat} {poi : List Nat} {verts : List Pt}
+    {segs : List (Nat × Nat)} {ha : Bool} {keys2 : List Nat} {keys4 : List GV} (hnx : 0 < g.nx) (hny : 0 < ny)
+    (hgen : ∀ seg, seg ∈ segs → GenPos g eps (verts.getD seg.1 (0, 0)) (verts.getD seg.2 (0, 0)))
+    (hfit : FitsAll g ny verts segs)
+    (hk2 : KeysAreHitEdges ((gridMap10 g ny).β 2) (slotsAll g eps verts segs) keys2)
+    (hready : pipelineReadyAll (gridMap10 g ny) g eps poi verts segs keys2 keys4 = true) :
+    ∃ m', pipelineMap (gridMap10 g ny) g eps poi verts segs ha keys2 keys4 = some m' :=
+  C16_pipeline_total_partial (gridMap10_wf g hnx hny) (gridMap10_notag g ny)
+    (by unfold gridMap10; rw [withStorages_asize, buildGrid2_asize]; decide)
+    (keysOK_of_hit_edges (gridMap10_wf g hnx hny) (C16_hitDartsOK_gridMap10 hgen hfit) hk2) hready
+
+/-- the chain `a → b → c` of `C16ChainGrid` with `b` a point of interest, capture (anchors): the condition holds, so the
+    pipeline succeeds -/
+example : ∃ m', pipelineMap (gridMap10 exG5 3) exG5 (1/8) [1] exVD exSD true [26, 30] [.intersec 0] = some m' :=
+  C16_pipeline_total_on_grid_partial (by decide) (by decide) exD_gen exD_fit exD_keys (by decide +kernel)
 
 end HC.C16
